@@ -1009,7 +1009,9 @@ def finish(ck):
                      "the Rust source on every run and every hand-transcribed function is pinned by hash. The model is tied to the code by comparing "
                      "CST, error list and kind rewrites with the real parse_cst on the same token sequences (the harness reports the kinds and line-break "
                      "flags the real tokenizer/preparser produced). Type checking and code generation are not modelled: their totality is checked by the "
-                     "supervised crash/hang oracle only."),
+                     "supervised crash/hang oracle only; the panics / aborts / malformed spans it finds on the real entry points are genuine defects, "
+                     "recorded one per identified cause in KNOWN_FINDINGS.txt (F40..F59) with a class predicate on panic site, message and text; "
+                     "anything outside those classes is a VIOLATION."),
         trusted_base=["Coq 8.16.1 kernel (coqc, vm_compute; no native_compute)",
                       "extraction: ExtrOcamlBasic + ExtrOcamlString only; OCaml 4.13.1; ocaml/parser_drv.ml driver",
                       "translator translators/token_kinds.py (regex over token.rs/green.rs/cst_parser.rs; hash pins of the hand-transcribed functions)",
@@ -1017,7 +1019,9 @@ def finish(ck):
                       "lexer and preparser: Props/C13.v (C13_tiling gives spans inside the text on char boundaries for every token index; token_indices has no Eof)",
                       "typing.rs / mirgen / bytecodegen / wasmgen are NOT modelled: totality only observed by the oracle on the generated inputs",
                       "compiler::Context built from an ExecContext with the audio-driver and scheduler plugins (the CLI additionally loads GUI/MIDI/sampler plugins)",
-                      f"stack: worker thread with {STACK_MIB} MiB, debug build (opt-level 1); nesting bound {NEST_BOUND} levels"],
+                      f"stack: worker thread with {STACK_MIB} MiB, harness profile dev with opt-level 1; nesting bound {NEST_BOUND} levels (the repository's own debug mimium-cli "
+                      "handles 1000 nested parentheses and overflows at 2000; type checking a nested array literal of depth d costs about d^4: 200 levels take seconds)",
+                      "the working directory of the oracle workers decides what `mod a` / `include` / `use` find on disk"],
         rule=("non-trivial = at least 3 syntax tokens; inputs: exhaustive short kind sequences, random kind sequences of length 3..12, grammar-generated "
               "programs with token-level mutations (delete/duplicate/swap/insert/replace/unbalance/truncate), all repository *.mmm files and mutations, "
               "random Unicode strings, bracket nesting at the stated bound"))
